@@ -14,7 +14,7 @@ trap 'git -C /repo worktree remove --force "$wt" >/dev/null 2>&1; find harness/b
 if ! git -C "$wt" apply "$patch"; then echo "PATCH-DOES-NOT-APPLY"; exit 3; fi
 export GOFLAGS=-mod=mod GOPROXY=off GOSUMDB=off GOTOOLCHAIN=local
 if ! (cd "$wt" && go build ./... ) >/dev/null 2>&1; then echo "MUTANT-DOES-NOT-BUILD"; exit 3; fi
-if tools/baseline_check.sh "$wt" >/tmp/mut_base.$$ 2>&1; then echo "suite: still green with the mutant"; else echo "SUITE-FAILS-WITH-MUTANT"; cat /tmp/mut_base.$$; fi
+if [ -n "${VERIF_SKIP_BASELINE:-}" ]; then echo "suite: not re-run (VERIF_SKIP_BASELINE)"; elif tools/baseline_check.sh "$wt" >/tmp/mut_base.$$ 2>&1; then echo "suite: still green with the mutant"; else echo "SUITE-FAILS-WITH-MUTANT"; cat /tmp/mut_base.$$; fi
 rm -f /tmp/mut_base.$$
 caught=""
 for p in $props; do
